@@ -86,6 +86,12 @@ func rawDH(k, u []byte) []byte {
 	return dst[:]
 }
 
+func arr32(b []byte) *[32]byte {
+	var a [32]byte
+	copy(a[:], b)
+	return &a
+}
+
 func allZero(b []byte) bool {
 	for _, v := range b {
 		if v != 0 {
@@ -356,6 +362,167 @@ func runSequence(r *vlib.Run, d *vlib.Driver, c ncase) {
 	}
 }
 
+// runAlias: every object handed to the handshake is built through an exported constructor from a
+// scratch buffer that is scribbled over and refilled with the NEXT value right after the constructor
+// returns (the next connection's key, the next bridge line). S: the object still holds the value it
+// was built from, and every handshake equals the independent computation on the ORIGINAL values.
+// Accessor results are used the way in-tree callers use them (read, append to, clone, pass on).
+func runAlias(r *vlib.Run, d *vlib.Driver, c ncase) {
+	kx := keypairFromTape(vlib.UnHex(c.TapeX), c.EllX)
+	ky := keypairFromTape(vlib.UnHex(c.TapeY), c.EllY)
+	X, Y := append([]byte(nil), kx.Public().Bytes()[:]...), append([]byte(nil), ky.Public().Bytes()[:]...)
+	x, y := append([]byte(nil), kx.Private().Bytes()[:]...), append([]byte(nil), ky.Private().Bytes()[:]...)
+	r.Case(fmt.Sprintf("alias %s %s %v", c.TapeX[:16], c.TapeY[:16], c.Steps), true)
+	r.Count("alias-steps", fmt.Sprint(len(c.Steps)))
+
+	type objs struct {
+		b, B, id   []byte // original values
+		kb         *ntor.Keypair
+		pX, pY, pB *ntor.PublicKey
+		nid        *ntor.NodeID
+		how        string
+	}
+	// one scratch area laid out like a bridge certificate (node ID ‖ public key) plus key buffers, all reused
+	cert := make([]byte, 20+32)
+	bufX, bufY := make([]byte, 32), make([]byte, 32)
+	var built []objs
+	for i, st := range c.Steps {
+		raw, _ := hex.DecodeString(st.BPriv)
+		var pub [32]byte
+		curve25519.ScalarBaseMult(&pub, arr32(raw))
+		o := objs{b: raw, B: pub[:], id: vlib.UnHex(st.ID)}
+		var err error
+		switch i % 3 {
+		case 0: // raw-slice constructors on sub-slices of one buffer, as statefile.go does with cert.raw
+			o.how = "NewNodeID/NewPublicKey on a reused buffer"
+			copy(cert[:20], o.id)
+			copy(cert[20:], o.B)
+			o.nid, err = ntor.NewNodeID(cert[:20])
+			if err == nil {
+				o.pB, err = ntor.NewPublicKey(cert[20:])
+			}
+			copy(bufX, X)
+			copy(bufY, Y)
+			if err == nil {
+				o.pX, err = ntor.NewPublicKey(bufX)
+			}
+			if err == nil {
+				o.pY, err = ntor.NewPublicKey(bufY)
+			}
+		case 1: // hex constructors
+			o.how = "NodeIDFromHex/PublicKeyFromHex"
+			o.nid, err = ntor.NodeIDFromHex(hex.EncodeToString(o.id))
+			if err == nil {
+				o.pB, err = ntor.PublicKeyFromHex(hex.EncodeToString(o.B))
+			}
+			if err == nil {
+				o.pX, err = ntor.PublicKeyFromHex(hex.EncodeToString(X))
+			}
+			if err == nil {
+				o.pY, err = ntor.PublicKeyFromHex(hex.EncodeToString(Y))
+			}
+		case 2: // the peer keys come out of Representative.ToPublic on a Representative that is then reused
+			o.how = "NewNodeID/NewPublicKey on fresh slices that are overwritten afterwards"
+			idb, Bb, Xb, Yb := append([]byte(nil), o.id...), append([]byte(nil), o.B...), append([]byte(nil), X...), append([]byte(nil), Y...)
+			o.nid, err = ntor.NewNodeID(idb)
+			if err == nil {
+				o.pB, err = ntor.NewPublicKey(Bb)
+			}
+			if err == nil {
+				o.pX, err = ntor.NewPublicKey(Xb)
+			}
+			if err == nil {
+				o.pY, err = ntor.NewPublicKey(Yb)
+			}
+			for _, s := range [][]byte{idb, Bb, Xb, Yb} {
+				for j := range s {
+					s[j] ^= 0xff
+				}
+			}
+		}
+		if err != nil {
+			panic(err)
+		}
+		if o.kb, err = ntor.KeypairFromHex(st.BPriv); err != nil {
+			panic(err)
+		}
+		// the caller moves on: scribble over every buffer the constructors saw
+		for _, s := range [][]byte{cert, bufX, bufY} {
+			for j := range s {
+				s[j] = 0xa5 ^ byte(i)
+			}
+		}
+		built = append(built, o)
+	}
+	check := func(when string) bool {
+		for i, o := range built {
+			for _, f := range []struct {
+				name      string
+				got, want []byte
+			}{{"NodeID", o.nid.Bytes()[:], o.id}, {"identity PublicKey", o.pB.Bytes()[:], o.B}, {"client PublicKey", o.pX.Bytes()[:], X},
+				{"server PublicKey", o.pY.Bytes()[:], Y}, {"Keypair.Private", o.kb.Private().Bytes()[:], o.b}, {"Keypair.Public", o.kb.Public().Bytes()[:], o.B}} {
+				if !bytes.Equal(f.got, f.want) {
+					r.Violate("constructor-aliases-caller-buffer", "impl-oracle",
+						fmt.Sprintf("%s: the %s built for step %d (%s) was constructed from %x but now holds %x — it shares memory with the caller's buffer or with another object", when, f.name, i+1, o.how, f.want, f.got), c)
+					return false
+				}
+			}
+		}
+		return true
+	}
+	intact := check("after the caller reused its buffers")
+	var prev []string
+	for i, o := range built {
+		where := fmt.Sprintf("step %d/%d (objects from %s)", i+1, len(built), o.how)
+		sok, sks, sauth := ntor.ServerHandshake(o.pX, ky, o.kb, o.nid)
+		cok, cks, cauth := ntor.ClientHandshake(kx, o.pY, o.pB, o.nid)
+		sImpl, cImpl := fmtRes(sok, sks[:], sauth[:]), fmtRes(cok, cks[:], cauth[:])
+		// use the accessor results the way in-tree callers do
+		macKey := append(o.pB.Bytes()[:], o.nid.Bytes()[:]...) // handshake_ntor.go: hmac key B ‖ NODEID
+		_ = append(bytes.Clone(o.nid.Bytes()[:]), o.kb.Public().Bytes()[:]...)
+		okm, _ := kdfCall(sks.Bytes()[:], 72)
+		if !bytes.Equal(macKey, cat(o.B, o.id)) || !ntor.CompareAuth(cauth, sauth.Bytes()[:]) != (cImpl != sImpl) || len(okm) != 72 {
+			r.Violate("accessor-use-unsafe", "impl-oracle", where+": B ‖ NODEID built from the accessors, CompareAuth on Auth.Bytes() or Kdf on KeySeed.Bytes() misbehave", c)
+		}
+		iok, iks, iauth := ntorIndep(rawDH(y, X), rawDH(o.b, X), o.id, o.B, X, Y)
+		ind := fmtRes(iok, iks, iauth)
+		if sImpl != ind || cImpl != ind {
+			r.Violate("handshake-differs-from-independent-ntor-on-original-values", "impl-oracle",
+				fmt.Sprintf("%s: server %q, client %q, independent computation on the values the objects were built from %q", where, sImpl, cImpl, ind), c)
+		}
+		for j, p := range prev {
+			if p == sImpl && (!bytes.Equal(built[j].id, o.id) || !bytes.Equal(built[j].B, o.B)) {
+				r.Violate("different-transcripts-same-outputs", "impl-oracle",
+					fmt.Sprintf("%s: same KEY_SEED/AUTH as step %d although node ID / identity key differ (%x/%x vs %x/%x)", where, j+1, built[j].id, built[j].B, o.id, o.B), c)
+			}
+		}
+		prev = append(prev, sImpl)
+		sModel := d.Call("srv %s %s %s %s %s %s", vlib.Hex(X), vlib.Hex(y), vlib.Hex(Y), vlib.Hex(o.b), vlib.Hex(o.B), vlib.Hex(o.id))
+		cModel := d.Call("cli %s %s %s %s %s", vlib.Hex(x), vlib.Hex(X), vlib.Hex(Y), vlib.Hex(o.B), vlib.Hex(o.id))
+		r.Validated(2)
+		if sModel != sImpl || cModel != cImpl {
+			r.Violate("model-impl-disagree-aliased-objects", "correspondence",
+				fmt.Sprintf("%s: implementation server %q client %q, Lean model on the original values server %q client %q", where, sImpl, cImpl, sModel, cModel), c)
+		}
+	}
+	if intact {
+		check("after the handshakes and the accessor uses")
+	}
+	// Representative.ToPublic: the result must not depend on what the Representative holds later
+	rep := new(ntor.Representative)
+	copy(rep.Bytes()[:], X)
+	var fresh ntor.Representative
+	copy(fresh[:], X)
+	want := *fresh.ToPublic()
+	p1 := rep.ToPublic()
+	copy(rep.Bytes()[:], Y) // next connection's representative, as handshake_ntor.go does
+	p2 := rep.ToPublic()
+	if *p1 != want || p1 == p2 {
+		r.Violate("constructor-aliases-caller-buffer", "impl-oracle",
+			fmt.Sprintf("Representative(%x).ToPublic() = %x changed to %x after the Representative was refilled", X, want, *p1), c)
+	}
+}
+
 // runKdfSeq: Kdf called repeatedly on the SAME seed slice with varying lengths.
 func runKdfSeq(r *vlib.Run, d *vlib.Driver, c ncase) {
 	seed := vlib.UnHex(c.Seed)
@@ -493,6 +660,8 @@ func runCase(r *vlib.Run, d *vlib.Driver, c ncase) {
 		runSequence(r, d, c)
 	case "kdfseq":
 		runKdfSeq(r, d, c)
+	case "alias":
+		runAlias(r, d, c)
 	}
 }
 
@@ -629,6 +798,14 @@ func generate(r *vlib.Run) []ncase {
 		c.Steps = append(c.Steps, menu[0]) // and end with the honest call again
 		cs = append(cs, c)
 	}
+	// objects built from caller buffers that are overwritten afterwards
+	for i := 0; i < r.Scale(60, 800); i++ {
+		c := ncase{Kind: "alias", TapeX: h(rng.Bytes(32 * 40)), TapeY: h(rng.Bytes(32 * 40)), EllX: i%2 == 0, EllY: i%3 != 0, Tag: "alias"}
+		for j, n := 0, rng.Range(3, 6); j < n; j++ {
+			c.Steps = append(c.Steps, step{BPriv: hex.EncodeToString(rng.Bytes(32)), ID: h(rng.Bytes(20)), Kind: "alias"})
+		}
+		cs = append(cs, c)
+	}
 	for i := 0; i < r.Scale(40, 400); i++ {
 		cs = append(cs, ncase{Kind: "kdfseq", Seed: h(rng.Bytes(32)), Raw: h(rng.Bytes(12)), Tag: "kdfseq"})
 	}
@@ -688,7 +865,7 @@ func generate(r *vlib.Run) []ncase {
 
 func main() {
 	r := vlib.NewRun("C08")
-	r.Rule = "cases: handshake (client/server ephemeral keys from NewKeypair on a recorded tape, with and without Elligator; identity key; node ID; optionally one public value replaced by a one-bit perturbation or by a low-order / non-canonical u-coordinate), sequence (3-9 such handshakes on ONE reused client Keypair and ONE reused server Keypair with identity keys, node IDs and peer keys varying from call to call), kdf (seed, n, m), api (constructor inputs, CompareAuth pairs); every case is non-trivial; distinct by canonical case text"
+	r.Rule = "cases: handshake (client/server ephemeral keys from NewKeypair on a recorded tape, with and without Elligator; identity key; node ID; optionally one public value replaced by a one-bit perturbation or by a low-order / non-canonical u-coordinate), alias (3-6 handshakes whose PublicKey/NodeID objects were built by NewPublicKey/NewNodeID/…FromHex from buffers the caller overwrites afterwards), sequence (3-9 such handshakes on ONE reused client Keypair and ONE reused server Keypair with identity keys, node IDs and peer keys varying from call to call), kdf (seed, n, m), api (constructor inputs, CompareAuth pairs); every case is non-trivial; distinct by canonical case text"
 	r.Assumptions = []string{
 		"DhComm for the real X25519 (the two DH computations commute, also for Elligator-dirty public keys) is a hypothesis of the agreement theorem; sampled here on every honest run",
 		"collision infeasibility of HMAC-SHA256 (the binding theorems exhibit the colliding strings)"}
